@@ -67,6 +67,7 @@ type stmt struct {
 	rows [][]val
 	sets []setExpr
 	w    pred
+	ord  []int // scan order of the matching rows as the engine reports it (primary keys)
 }
 
 func ints(xs []int) string {
@@ -103,6 +104,18 @@ func (p pred) payload() string {
 	return "(all)"
 }
 
+func (p pred) eval(r []val) bool {
+	switch p.kind {
+	case "eq":
+		return !r[p.c].null && r[p.c].v == p.v
+	case "nul":
+		return r[p.c].null
+	case "lt":
+		return !r[p.c].null && r[p.c].v < p.v
+	}
+	return true
+}
+
 func (p pred) SQL() string {
 	switch p.kind {
 	case "eq":
@@ -136,9 +149,9 @@ func (st stmt) payload() string {
 				sets[i] = fmt.Sprintf("(%d a %d %d)", s.c, s.c2, s.k)
 			}
 		}
-		return fmt.Sprintf("(upd %d (%s) %s)", st.t, strings.Join(sets, " "), st.w.payload())
+		return fmt.Sprintf("(upd %d (%s) %s (ord %s))", st.t, strings.Join(sets, " "), st.w.payload(), ints(st.ord))
 	default:
-		return fmt.Sprintf("(del %d %s)", st.t, st.w.payload())
+		return fmt.Sprintf("(del %d %s (ord %s))", st.t, st.w.payload(), ints(st.ord))
 	}
 }
 
@@ -493,10 +506,42 @@ func genPred(r *hx.Rand, s *schema, t, dom int) pred {
 // genStmt draws the next statement knowing the current contents (cur), so that most child rows
 // reference existing parents and most predicates hit existing rows.
 func genStmt(r *hx.Rand, s *schema, dom int, phase int, cur [][][]val) stmt {
+	// tables that take part in some constraint get most of the statements
+	var involved []int
+	for t := range s.ncols {
+		for _, f := range s.fks {
+			if f.child == t || f.parent == t {
+				involved = append(involved, t)
+				break
+			}
+		}
+	}
 	t := r.Intn(len(s.ncols))
+	if len(involved) > 0 && r.Chance(9, 10) {
+		t = hx.Pick(r, involved)
+	}
 	x := r.Intn(100)
 	if phase == 0 {
-		x = x % 50 // population phase: inserts dominate
+		// population phase: inserts, into the table with the fewest still-empty parents first
+		x = 0
+		best, bestScore := t, 1<<30
+		cands := involved
+		if len(cands) == 0 {
+			cands = []int{t}
+		}
+		for _, c := range cands {
+			score := 3 * len(cur[c])
+			for _, f := range s.fks {
+				if f.child == c && f.parent != c && len(cur[f.parent]) == 0 {
+					score += 10
+				}
+			}
+			score += r.Intn(3)
+			if score < bestScore {
+				best, bestScore = c, score
+			}
+		}
+		t = best
 	}
 	pickRow := func(t int) []val {
 		if len(cur[t]) == 0 {
@@ -524,6 +569,18 @@ func genStmt(r *hx.Rand, s *schema, dom int, phase int, cur [][][]val) stmt {
 		for i := 0; i < n; i++ {
 			row := make([]val, s.ncols[t])
 			row[0] = val{v: 1 + r.Intn(dom+3)}
+			if r.Chance(5, 6) { // mostly a fresh key
+				usedPk := map[int]bool{}
+				for _, x := range cur[t] {
+					usedPk[x[0].v] = true
+				}
+				for _, x := range st.rows {
+					usedPk[x[0].v] = true
+				}
+				for try := 0; try < 6 && usedPk[row[0].v]; try++ {
+					row[0] = val{v: 1 + r.Intn(dom+5)}
+				}
+			}
 			for c := 1; c < len(row); c++ {
 				row[c] = genVal(r, dom, !contains(s.notNull[t], c) || r.Chance(1, 20))
 			}
@@ -541,6 +598,12 @@ func genStmt(r *hx.Rand, s *schema, dom int, phase int, cur [][][]val) stmt {
 					p = pickRow(f.parent)
 				}
 				if p == nil {
+					// no parent yet: NULL where the column allows it
+					for _, cc := range f.ccols {
+						if cc != 0 && !contains(s.notNull[t], cc) {
+							row[cc] = val{null: true}
+						}
+					}
 					continue
 				}
 				for j, cc := range f.ccols {
@@ -606,10 +669,213 @@ func genStmt(r *hx.Rand, s *schema, dom int, phase int, cur [][][]val) stmt {
 
 // ---------------------------------------------------------------------------------------------
 
+type failure struct{ tag, desc string }
+
 type caseOut struct {
 	obs      string
 	nontriv  bool
-	failures []string
+	failures []failure
+}
+
+// cyclicTables: tables that lie on a cycle of the constraint graph (self references included). A
+// statement on such a table makes the engine look the table up through its own editor while the
+// statement is still scanning it.
+func cyclicTables(s *schema) []bool {
+	n := len(s.ncols)
+	reach := make([][]bool, n)
+	for i := range reach {
+		reach[i] = make([]bool, n)
+	}
+	for _, f := range s.fks {
+		reach[f.child][f.parent] = true
+	}
+	for k := 0; k < n; k++ {
+		for i := 0; i < n; i++ {
+			for j := 0; j < n; j++ {
+				if reach[i][k] && reach[k][j] {
+					reach[i][j] = true
+				}
+			}
+		}
+	}
+	out := make([]bool, n)
+	for i := range out {
+		out[i] = reach[i][i]
+	}
+	return out
+}
+
+// staleIterationHazard is the region predicate of finding cyclic_cascade_iterates_stale_index,
+// decided on the statement, the schema and the contents before it: the statement is a DELETE or
+// UPDATE, some table C reachable from its target through constraints with a CASCADE / SET NULL
+// action lies on a cycle of such constraints (a self reference is a cycle), and two rows of C
+// carry the same NULL-free key of such a constraint — so the engine iterates over several child
+// rows of C (through an index copy whose entries are shared with the live table) while nested
+// actions edit C.
+func staleIterationHazard(s *schema, st stmt, cur [][][]val) bool {
+	if st.kind == "ins" {
+		return false
+	}
+	n := len(s.ncols)
+	active := func(f fk) bool { return f.onDel != 'r' || f.onUpd != 'r' }
+	reach := make([][]bool, n) // parent -> child along active constraints
+	for i := range reach {
+		reach[i] = make([]bool, n)
+	}
+	for _, f := range s.fks {
+		if active(f) {
+			reach[f.parent][f.child] = true
+		}
+	}
+	for k := 0; k < n; k++ {
+		for i := 0; i < n; i++ {
+			for j := 0; j < n; j++ {
+				if reach[i][k] && reach[k][j] {
+					reach[i][j] = true
+				}
+			}
+		}
+	}
+	for c := 0; c < n; c++ {
+		if !(c == st.t || reach[st.t][c]) || !reach[c][c] {
+			continue
+		}
+		for _, f := range s.fks {
+			if f.child != c || !active(f) {
+				continue
+			}
+			seen := map[string]bool{}
+			for _, row := range cur[c] {
+				null := false
+				k := ""
+				for _, cc := range f.ccols {
+					if row[cc].null {
+						null = true
+					}
+					k += row[cc].String() + ","
+				}
+				if null {
+					continue
+				}
+				if seen[k] {
+					return true
+				}
+				seen[k] = true
+			}
+		}
+	}
+	return false
+}
+
+// indexProbe compares index-driven reads with the table contents: for every constraint column
+// list and every value combination present (and IS NULL for single columns) the rows returned by
+// `SELECT … WHERE cols = vals` must be the rows of the dump with these values.
+func (d *realDb) indexProbe(cur [][][]val) (int, string) {
+	seen := map[string]bool{}
+	probe := func(t int, cols []int) string {
+		k := fmt.Sprintf("%d:%v", t, cols)
+		if seen[k] {
+			return ""
+		}
+		seen[k] = true
+		combos := map[string][]val{}
+		for _, r := range cur[t] {
+			vs := make([]val, len(cols))
+			for i, c := range cols {
+				vs[i] = r[c]
+			}
+			combos[fmt.Sprint(vs)] = vs
+		}
+		if len(cols) == 1 {
+			combos["null"] = []val{{null: true}}
+		}
+		keys := make([]string, 0, len(combos))
+		for k := range combos {
+			keys = append(keys, k)
+		}
+		sort.Strings(keys)
+		for _, k := range keys {
+			vs := combos[k]
+			conds := make([]string, len(cols))
+			for i, c := range cols {
+				if vs[i].null {
+					conds[i] = fmt.Sprintf("c%d IS NULL", c)
+				} else {
+					conds[i] = fmt.Sprintf("c%d = %d", c, vs[i].v)
+				}
+			}
+			q := fmt.Sprintf("SELECT * FROM t%d WHERE %s", t, strings.Join(conds, " AND "))
+			r := d.e.Query(eng.SameSession(d.ctx), q)
+			var got []string
+			for i, row := range r.Rows {
+				cells := make([]string, len(row))
+				for j, c := range row {
+					if r.Null[i][j] {
+						cells[j] = "null"
+					} else {
+						cells[j] = c
+					}
+				}
+				got = append(got, "["+strings.Join(cells, ",")+"]")
+			}
+			var want []string
+			for _, row := range cur[t] {
+				ok := true
+				for i, c := range cols {
+					if row[c].null != vs[i].null || (!vs[i].null && row[c].v != vs[i].v) {
+						ok = false
+					}
+				}
+				if ok {
+					cells := make([]string, len(row))
+					for j, v := range row {
+						cells[j] = v.String()
+					}
+					want = append(want, "["+strings.Join(cells, ",")+"]")
+				}
+			}
+			sort.Strings(got)
+			sort.Strings(want)
+			if r.Class() != "ok" || strings.Join(got, "") != strings.Join(want, "") {
+				return fmt.Sprintf("%s returns %s %v, the table holds %v", q, r.Class(), got, want)
+			}
+		}
+		return ""
+	}
+	for _, f := range d.s.fks {
+		if m := probe(f.child, f.ccols); m != "" {
+			return f.child, m
+		}
+		if m := probe(f.parent, f.pcols); m != "" {
+			return f.parent, m
+		}
+	}
+	return -1, ""
+}
+
+// activeReach[i][j]: table j is reachable from table i through constraints (parent -> child) that
+// carry a CASCADE / SET NULL action.
+func activeReach(s *schema) [][]bool {
+	n := len(s.ncols)
+	reach := make([][]bool, n)
+	for i := range reach {
+		reach[i] = make([]bool, n)
+	}
+	for _, f := range s.fks {
+		if f.onDel != 'r' || f.onUpd != 'r' {
+			reach[f.parent][f.child] = true
+		}
+	}
+	for k := 0; k < n; k++ {
+		for i := 0; i < n; i++ {
+			for j := 0; j < n; j++ {
+				if reach[i][k] && reach[k][j] {
+					reach[i][j] = true
+				}
+			}
+		}
+	}
+	return reach
 }
 
 func runCase(s *schema, want []fk, nst int, next func(i int, cur [][][]val) stmt, out *hx.Out) (payload string, co caseOut) {
@@ -617,10 +883,52 @@ func runCase(s *schema, want []fk, nst int, next func(i int, cur [][][]val) stmt
 	var sb strings.Builder
 	before := d.dump()
 	cascaded, rejected := false, false
-	parts := make([]string, nst)
+	var parts []string
+	cyc := cyclicTables(s)
 	for i := 0; i < nst; i++ {
 		st := next(i, before)
-		parts[i] = st.payload()
+		if st.kind != "ins" {
+			// rows the statement will visit, evaluated on the dump
+			var hit [][]val
+			for _, row := range before[st.t] {
+				if st.w.eval(row) {
+					hit = append(hit, row)
+				}
+			}
+			if len(hit) >= 2 && cyc[st.t] && !(st.kind == "del" && st.w.kind == "all") {
+				// envelope: the engine scans the table while its own referential lookups apply the pending
+				// edits to it; which rows a multi-row statement then visits depends on iterator internals
+				// (rows are skipped or visited stale). One row at a time on cyclic tables.
+				st.w = pred{kind: "eq", c: 0, v: hit[0][0].v}
+				hit = hit[:1]
+				out.Stat("narrowed-to-one-row")
+			}
+			if len(hit) >= 2 && st.w.kind != "all" {
+				r := d.e.Query(eng.SameSession(d.ctx), fmt.Sprintf("SELECT * FROM t%d%s", st.t, st.w.SQL()))
+				for _, row := range r.Rows {
+					var k int
+					fmt.Sscan(row[0], &k)
+					st.ord = append(st.ord, k)
+				}
+			}
+			if len(hit) >= 2 {
+				out.Stat("multi-row-" + st.kind)
+			}
+		}
+		if staleIterationHazard(s, st, before) {
+			// outside what the model can predict (finding cyclic_cascade_iterates_stale_index): the
+			// statement is run and judged by the model-free oracle only, and ends the case.
+			out.Stat("hazard-stmt")
+			r := d.e.Query(eng.SameSession(d.ctx), st.SQL())
+			after := d.dump()
+			if ok, why := riHolds(s, after); !ok {
+				co.failures = append(co.failures, failure{"cyclic_cascade_iterates_stale_index",
+					fmt.Sprintf("after the case's statements, %s -> %s on %s leaves %s: %s", st.SQL(), class(r), fmtDump(before), fmtDump(after), why)})
+				out.Stat("hazard-stmt-broke-ri")
+			}
+			break
+		}
+		parts = append(parts, st.payload())
 		r := d.e.Query(eng.SameSession(d.ctx), st.SQL())
 		cl := class(r)
 		after := d.dump()
@@ -628,10 +936,26 @@ func runCase(s *schema, want []fk, nst int, next func(i int, cur [][][]val) stmt
 		riS := "1"
 		if !ri {
 			riS = "0"
-			co.failures = append(co.failures, fmt.Sprintf("stmt %d (%s): %s", i, st.SQL(), why))
+			co.failures = append(co.failures, failure{"-", fmt.Sprintf("stmt %d (%s): %s", i, st.SQL(), why)})
 		}
 		if cl != "ok" && fmtDump(before) != fmtDump(after) {
-			co.failures = append(co.failures, fmt.Sprintf("stmt %d (%s) failed with %s but changed the data: %s -> %s", i, st.SQL(), cl, fmtDump(before), fmtDump(after)))
+			co.failures = append(co.failures, failure{"-", fmt.Sprintf("stmt %d (%s) failed with %s but changed the data: %s -> %s", i, st.SQL(), cl, fmtDump(before), fmtDump(after))})
+		}
+		stop := false
+		if cl != "ok" {
+			// a failed statement must have no effect, also not on index-driven reads
+			if tc, m := d.indexProbe(after); m != "" {
+				// region predicate: the damaged table is the statement's own table and lies on a constraint
+				// cycle (its editor is looked up while it holds pending edits), or it receives the statement's
+				// referential actions (its pending edits are applied by the next visited row's lookup)
+				tag := "-"
+				if (tc == st.t && cyc[st.t]) || activeReach(s)[st.t][tc] {
+					tag = "failed_stmt_corrupts_index"
+				}
+				co.failures = append(co.failures, failure{tag, fmt.Sprintf("stmt %d (%s) failed with %s and left an index inconsistent: %s", i, st.SQL(), cl, m)})
+				out.Stat("index-corrupted-after-failed-stmt")
+				stop = true // the rest of the history would run on a corrupted table
+			}
 		}
 		// non-trivial: a referential action changed another table, or a key check rejected a statement
 		if cl == "ok" {
@@ -651,6 +975,9 @@ func runCase(s *schema, want []fk, nst int, next func(i int, cur [][][]val) stmt
 		out.Stat("class:" + cl)
 		fmt.Fprintf(&sb, "%s;%s;ri=%s|", cl, fmtDump(after), riS)
 		before = after
+		if stop {
+			break
+		}
 	}
 	if cascaded {
 		out.Stat("case:cascaded")
@@ -676,19 +1003,21 @@ func run(a hx.RunArgs) error {
 		"actions none/RESTRICT/NO ACTION/CASCADE/SET NULL) run through Engine.Query on a fresh in-memory database; after every statement the " +
 		"outcome class, all tables and the model-free referential-integrity check are observed; non-trivial = a referential action changed " +
 		"another table (or several rows of a self-referencing one) or a key check rejected a statement"
-	r := hx.NewRand(a.Seed)
+	// hx.NewRand(seed) streams are shifts of one another (state = seed*γ + k, step = γ): derive the
+	// generator from an output of the seed's stream so that different seeds explore different cases
+	r := hx.NewRand(hx.NewRand(a.Seed).U64())
 	emitGen := func(s *schema, want []fk, nst int, next func(i int, cur [][][]val) stmt) {
 		payload, co := runCase(s, want, nst, next, out)
 		id := out.Case(payload, co.obs, co.nontriv)
 		for _, f := range co.failures {
-			out.OracleFail(id, "-", f)
+			out.OracleFail(id, f.tag, f.desc)
 		}
 	}
 	emit := func(s *schema, want []fk, stmts []stmt) {
 		payload, co := runCase(s, want, len(stmts), func(i int, _ [][][]val) stmt { return stmts[i] }, out)
 		id := out.Case(payload, co.obs, co.nontriv)
 		for _, f := range co.failures {
-			out.OracleFail(id, "-", f)
+			out.OracleFail(id, f.tag, f.desc)
 		}
 	}
 
@@ -701,6 +1030,34 @@ func run(a hx.RunArgs) error {
 		emit(s, w, []stmt{
 			{kind: "ins", t: 0, rows: [][]val{row(iv(1), nv())}},
 			{kind: "upd", t: 0, sets: []setExpr{{c: 0, kind: "k", v: iv(2)}, {c: 1, kind: "k", v: iv(1)}}, w: pred{kind: "eq", c: 0, v: 1}},
+		})
+	}
+	{ // witness of finding failed_stmt_on_cyclic_table_corrupts_index
+		s, w := selfRef()
+		emit(s, w, []stmt{
+			{kind: "ins", t: 0, rows: [][]val{row(iv(1), nv()), row(iv(3), nv()), row(iv(4), iv(1))}},
+			{kind: "ins", t: 0, rows: [][]val{row(iv(0), iv(1)), row(iv(6), iv(99))}},
+		})
+	}
+	{ // witness of finding cyclic_cascade_iterates_stale_index
+		s := &schema{ncols: []int{2}, notNull: [][]int{nil}}
+		w := []fk{{child: 0, parent: 0, ccols: []int{1}, pcols: []int{0}, onDel: 'c', onUpd: 'r', delSQL: "CASCADE"}}
+		emit(s, w, []stmt{
+			{kind: "ins", t: 0, rows: [][]val{row(iv(4), nv()), row(iv(5), iv(4)), row(iv(7), iv(4)), row(iv(2), iv(5)), row(iv(6), iv(2))}},
+			{kind: "del", t: 0, w: pred{kind: "eq", c: 0, v: 4}},
+		})
+	}
+	{ // witness of finding shared_child_column_update_cascade
+		s := &schema{ncols: []int{2, 2, 2}, notNull: [][]int{nil, nil, nil}}
+		w := []fk{
+			{child: 0, parent: 1, ccols: []int{1}, pcols: []int{1}, onDel: 'r', onUpd: 'c', updSQL: "CASCADE"},
+			{child: 2, parent: 0, ccols: []int{1}, pcols: []int{1}, onDel: 'r', onUpd: 'r'},
+			{child: 0, parent: 1, ccols: []int{1}, pcols: []int{0}, onDel: 'r', onUpd: 'c', updSQL: "CASCADE"},
+		}
+		emit(s, w, []stmt{
+			{kind: "ins", t: 1, rows: [][]val{row(iv(1), iv(1))}},
+			{kind: "ins", t: 0, rows: [][]val{row(iv(1), iv(1))}},
+			{kind: "upd", t: 1, sets: []setExpr{{c: 0, kind: "k", v: iv(3)}}, w: pred{kind: "eq", c: 0, v: 1}},
 		})
 	}
 	{ // self-referencing row: insert allowed, delete/update of the key blocked
@@ -758,14 +1115,14 @@ func run(a hx.RunArgs) error {
 		noOverlap := r.Chance(1, 2)
 		s, want := genSchema(r, shape, noOverlap)
 		dom := 2 + r.Intn(3)
-		nst := 6 + r.Intn(9)
+		nst := 8 + r.Intn(9)
 		out.Stat(fmt.Sprintf("shape:%d", shape))
 		if noOverlap {
 			out.Stat("noOverlap")
 		}
 		emitGen(s, want, nst, func(j int, cur [][][]val) stmt {
 			ph := 1
-			if j < nst/3 {
+			if j < 2+nst/4 {
 				ph = 0
 			}
 			return genStmt(r, s, dom, ph, cur)
